@@ -99,6 +99,8 @@ def check_update(ctx, rs, name, model_groups, M, u, inp, heavy):
         ctx.count("updates with non-finite weights skipped")
         return nv
     for g in groups:
+        if len(g) == 0:
+            continue        # an empty group (accepted by check_groups) holds no weight
         v = post[ks][g].ravel()
         z = after[ks][g].ravel()
         if not mlp:
